@@ -312,8 +312,10 @@ class PlanJoinTablesQuery:
                     if table_info is None:
                         raise PlanningException(f'Table not found for identifier: {node.to_string()}')
 
-                    # # replace identifies name
-                    col_parts = list(table_info.aliases[-1])
+                    # # replace identifies name: the shortest name that still denotes this table
+                    # (a shorter one can be taken by the alias of another table of the join)
+                    col_parts = next(list(alias) for alias in reversed(table_info.aliases)
+                                     if self.tables_idx.get(alias) is table_info)
                     col_parts.append(node.parts[-1])
                     node.parts = col_parts
 
